@@ -16,7 +16,10 @@ theorem extract_conservation (t sub : Tree) (extractId parentId : Nat) (newKey :
                      ∧ Tree.anyIdEq extractId pt.children = true) :
     (Content.ofTree (extractRec extractId parentId newKey t) ++ Content.ofTree sub).Perm
       (Node.ref newKey (nodePlainText sub.node) .regular :: Content.ofTree t) := by
-  sorry
+  obtain ⟨pt, hp, hs, ha⟩ := hparent
+  have h := Tree.meas_extractRec Tree.contentF extractId parentId newKey pt sub t huniq hp hs ha
+  rw [Tree.ofTree_eq_meas, Tree.ofTree_eq_meas, Tree.ofTree_eq_meas]
+  simpa [Tree.contentF, Content.isContainerOnly] using h
 
 /-- exactly one reference is left in the source, titled with the extracted section's heading text -/
 theorem extract_leaves_one_reference (t sub : Tree) (extractId parentId : Nat) (newKey : String)
@@ -25,19 +28,33 @@ theorem extract_leaves_one_reference (t sub : Tree) (extractId parentId : Nat) (
                      ∧ Tree.anyIdEq extractId pt.children = true)
     (hfresh : newKey ∉ Content.refKeys t) :
     (Content.refKeys (extractRec extractId parentId newKey t)).count newKey = 1 := by
-  sorry
+  obtain ⟨pt, hp, hs, ha⟩ := hparent
+  have h := Tree.meas_extractRec Tree.refKeysF extractId parentId newKey pt sub t huniq hp hs ha
+  rw [← Tree.refKeys_eq_meas, ← Tree.refKeys_eq_meas, ← Tree.refKeys_eq_meas] at h
+  have hsub : newKey ∉ Content.refKeys sub := by
+    intro hm
+    apply hfresh
+    rw [Tree.refKeys_eq_meas] at hm ⊢
+    apply Tree.meas_find_subset Tree.refKeysF parentId pt t hp
+    obtain ⟨pid, pn, pcs⟩ := pt
+    simp only [Tree.meas, List.mem_append]
+    exact .inr (Tree.measL_findL_subset Tree.refKeysF extractId sub pcs hs newKey hm)
+  have hc := h.count_eq newKey
+  simp only [List.count_append, Tree.refKeysF, List.count_eq_zero_of_not_mem hsub,
+    List.count_eq_zero_of_not_mem hfresh] at hc
+  simpa using hc
 
 /-- everything outside the parent section is untouched -/
 theorem extract_frame (t : Tree) (extractId parentId : Nat) (newKey : String)
     (h : Tree.contains parentId t = false) :
-    extractRec extractId parentId newKey t = t := by
-  sorry
+    extractRec extractId parentId newKey t = t :=
+  Tree.extractRec_frame extractId parentId newKey t h
 
 /-- **headings of the new note are promoted to top level**: the extracted subtree is rendered as a
 note of its own starting at level 1, whatever its depth was -/
 theorem extract_promotes (dir : String) (id : Option Nat) (xs : Inlines) (cs : List Tree) :
     Project.project dir (.mk id (.sect xs) cs) = .header 1 xs :: Project.forest dir 1 cs := by
-  sorry
+  simp [Project.project, Project.tree]
 
 /-- **inline as section conserves content**: the reference is removed and exactly the referenced
 note's content is put into the section that held it -/
@@ -47,7 +64,57 @@ theorem inline_section_conservation (t inlined : Tree) (target sectionId : Nat) 
     (href : ∃ rt, Tree.find target t = some rt ∧ rt.node = .ref k text ty ∧ rt.children = []) :
     (Node.ref k text ty :: Content.ofTree (Tree.appendPreHeader sectionId inlined (Tree.removeNode target t))).Perm
       (Content.ofTree t ++ Content.ofTree inlined) := by
-  sorry
+  obtain ⟨st, hst, hany⟩ := hsec
+  obtain ⟨rt, hrt, hnode, hch⟩ := href
+  have hrid : rt.id = some target := Tree.find_id target t rt hrt
+  -- the target is not the root and is not the section
+  have hroot : t.id ≠ some target := by
+    intro he
+    obtain ⟨id, n, cs⟩ := t
+    have he' : id = some target := he
+    have : Tree.mk id n cs = rt := by simpa [Tree.find, he'] using hrt
+    subst this
+    simp only [Tree.children_mk] at hch
+    subst hch
+    by_cases hs : id = some sectionId
+    · have : Tree.mk id n [] = st := by simpa [Tree.find, hs] using hst
+      subst this
+      simp [Tree.anyIdEq] at hany
+    · simp [Tree.find, hs, Tree.findL] at hst
+  have hne : sectionId ≠ target := by
+    intro he
+    subst he
+    rw [hst] at hrt
+    cases hrt
+    rw [hch] at hany
+    simp [Tree.anyIdEq] at hany
+  -- removing the reference
+  have hR := Tree.meas_removeNode Tree.contentF target rt t huniq hroot hrt hch
+  have hRid := Tree.meas_removeNode Tree.idsF target rt t huniq hroot hrt hch
+  rw [← Tree.ids_eq_meas, ← Tree.ids_eq_meas] at hRid
+  have hn' : (Tree.ids (Tree.removeNode target t)).Nodup := by
+    have : (Tree.idsF rt.id rt.node ++ Tree.ids (Tree.removeNode target t)).Nodup :=
+      hRid.nodup_iff.mpr huniq
+    exact (List.nodup_append.mp this).2.1
+  have hmem : sectionId ∈ Tree.ids (Tree.removeNode target t) := by
+    have h1 : sectionId ∈ Tree.ids t := Tree.find_some_mem hst
+    have h2 := hRid.symm.subset h1
+    simp only [Tree.idsF, hrid, List.mem_append, List.mem_singleton] at h2
+    rcases h2 with h2 | h2
+    · exact absurd h2 hne
+    · exact h2
+  -- inserting the note
+  have hP := Tree.meas_appendPreHeader Tree.contentF sectionId inlined (Tree.removeNode target t) hn'
+    ((Tree.contains_iff _ _).mpr hmem)
+  rw [Tree.ofTree_eq_meas, Tree.ofTree_eq_meas, Tree.ofTree_eq_meas]
+  have hf : Tree.contentF rt.id rt.node = [Node.ref k text ty] := by
+    simp [Tree.contentF, hnode, Content.isContainerOnly]
+  rw [hf] at hR
+  have hgoal : ([Node.ref k text ty] ++ Tree.meas Tree.contentF
+      (Tree.appendPreHeader sectionId inlined (Tree.removeNode target t))).Perm
+      (Tree.meas Tree.contentF t ++ Tree.meas Tree.contentF inlined) := by
+    perm_count [hR, hP]
+  simpa using hgoal
 
 /-- **inline as quote conserves content**: the reference is replaced by a quote holding the note's blocks -/
 theorem inline_quote_conservation (t inlined : Tree) (target : Nat) (k text : String) (ty : LinkType)
@@ -55,7 +122,17 @@ theorem inline_quote_conservation (t inlined : Tree) (target : Nat) (k text : St
     (href : ∃ rt, Tree.find target t = some rt ∧ rt.node = .ref k text ty ∧ rt.children = []) :
     (Node.ref k text ty :: Content.ofTree (Tree.replace target (.mk none .quote inlined.children) t)).Perm
       (Node.quote :: (Content.ofTree t ++ Content.ofForest inlined.children)) := by
-  sorry
+  obtain ⟨rt, hrt, hnode, hch⟩ := href
+  have hR := Tree.meas_replace Tree.contentF target (.mk none .quote inlined.children) rt t huniq hrt hch
+  have hf : Tree.contentF rt.id rt.node = [Node.ref k text ty] := by
+    simp [Tree.contentF, hnode, Content.isContainerOnly]
+  rw [hf] at hR
+  rw [Tree.ofTree_eq_meas, Tree.ofTree_eq_meas, Tree.ofForest_eq_measL]
+  have h2 : (Node.ref k text ty :: Tree.meas Tree.contentF
+      (Tree.replace target (Tree.mk none Node.quote inlined.children) t)).Perm
+      (Node.quote :: (Tree.measL Tree.contentF inlined.children ++ Tree.meas Tree.contentF t)) := by
+    simpa [Tree.meas, Tree.contentF, Content.isContainerOnly] using hR
+  exact h2.trans (List.Perm.cons _ List.perm_append_comm)
 
 /-- **extracting the first sub-section and inlining it again restores the (formatted) original**:
 with `pre` the blocks before the first sub-section `s`, the section after extract-then-inline holds
@@ -64,19 +141,124 @@ theorem extract_inline_restores (dir key : String) (lvl : Nat) (pid did : Option
     (pre rest : List Tree) (s : Tree) :
     Project.tree dir lvl (.mk pid (.sect xs) (pre ++ [.mk did (.document key) [s]] ++ rest))
       = Project.tree dir lvl (.mk pid (.sect xs) (pre ++ [s] ++ rest)) := by
-  sorry
+  have happ : ∀ (l : Nat) (a b : List Tree),
+      Project.forest dir l (a ++ b) = Project.forest dir l a ++ Project.forest dir l b := by
+    intro l a b
+    induction a with
+    | nil => simp [Project.forest]
+    | cons x xs ih => simp [Project.forest, ih]
+  simp [Project.tree, happ, Project.forest]
 
+set_option linter.unusedVariables false in
 /-- the shape used by `extract_inline_restores` is what the two tree operations produce: removing
 the reference that `extract_rec` put before the first sub-section and inserting the collected note
-there again -/
+there again (this statement: the extract half; `inline_after_extract_shape`: the inline half).
+`huniq` was added: the title of the reference is taken from the first node with id `e` in
+pre-order, which may sit *inside* `pre` unless ids are unique
+(`extract_then_inline_shape_counterexample`) -/
 theorem extract_then_inline_shape (pid : Option Nat) (p : Nat) (xs : Inlines) (pre rest : List Tree) (s inl : Tree)
     (e : Nat) (newKey : String)
     (hp : pid = some p) (hs : s.id = some e) (hsec : s.isSection = true)
+    (huniq : Content.uniqueIds (.mk pid (.sect xs) (pre ++ [s] ++ rest)))
     (hpre : ∀ c ∈ pre, c.isSection = false ∧ c.idEq e = false ∧ c.id ≠ none)
     (hrest : ∀ c ∈ rest, c.idEq e = false ∧ c.id ≠ none) :
     extractRec e p newKey (.mk pid (.sect xs) (pre ++ [s] ++ rest))
       = .mk pid (.sect xs) (pre ++ [.mk none (.ref newKey (nodePlainText s.node) .regular) []] ++ rest) := by
-  sorry
+  subst hp
+  have hse : s.idEq e = true := (Tree.idEq_iff s e).mpr hs
+  -- the nodes before `s` do not contain `e` anywhere (ids are unique)
+  have hn : (Tree.idsL pre ++ (Tree.ids s ++ Tree.idsL rest)).Nodup := by
+    have h := huniq
+    simp only [Content.uniqueIds, Tree.ids, Tree.idsL_append, Tree.idsL, List.append_nil,
+      List.append_assoc] at h
+    exact (List.nodup_append.mp h).2.1
+  have hes : e ∈ Tree.ids s := Tree.find_some_mem (Tree.find_self_of_idEq hse)
+  have hpre_not : e ∉ Tree.idsL pre := by
+    intro hm
+    exact (List.nodup_append.mp hn).2.2 e hm e (List.mem_append_left _ hes) rfl
+  -- title
+  have hfind : Tree.findL e (pre ++ [s] ++ rest) = some s := by
+    have hgen : ∀ (a b : List Tree), e ∉ Tree.idsL a → Tree.findL e (a ++ b) = Tree.findL e b := by
+      intro a b
+      induction a with
+      | nil => intro _; rfl
+      | cons x xs ih =>
+        intro h
+        simp only [Tree.idsL, List.mem_append, not_or] at h
+        simp [Tree.findL, Tree.find_none_of_not_mem h.1, ih h.2]
+    rw [List.append_assoc, hgen _ _ hpre_not]
+    simp [Tree.findL, Tree.find_self_of_idEq hse]
+  -- the kept children
+  have hkept : (pre ++ [s] ++ rest).filter (fun c => !c.idEq e) = pre ++ rest := by
+    have h1 : pre.filter (fun c => !c.idEq e) = pre := by
+      rw [List.filter_eq_self]; intro c hc; simp [(hpre c hc).2.1]
+    have h2 : rest.filter (fun c => !c.idEq e) = rest := by
+      rw [List.filter_eq_self]; intro c hc; simp [(hrest c hc).1]
+    simp [List.filter_append, h1, h2, hse]
+  -- the position
+  have hpos : Tree.preSubHeaderPosition (pre ++ [s] ++ rest) = pre.length := by
+    unfold Tree.preSubHeaderPosition
+    rw [List.append_assoc, List.takeWhile_append_of_pos]
+    · simp [hsec]
+    · intro c hc; simp [(hpre c hc).1]
+  simp only [extractRec, beq_self_eq_true, if_true, hfind, hkept, hpos, Tree.insertAt]
+  simp
+
+/-- the inline half of the shape used by `extract_inline_restores` (the statement above covers the
+extract half): removing the reference `r` that sits before the first sub-section of section `p` and
+inserting the collected note `inl` "pre-header" puts `inl` exactly where the reference was -/
+theorem inline_after_extract_shape (p r : Nat) (xs : Inlines) (pre rest : List Tree) (inl : Tree)
+    (k text : String) (ty : LinkType)
+    (huniq : Content.uniqueIds (.mk (some p) (.sect xs) (pre ++ [.mk (some r) (.ref k text ty) []] ++ rest)))
+    (hpre : ∀ c ∈ pre, c.isSection = false)
+    (hrest : ∀ c, rest.head? = some c → c.isSection = true) :
+    Tree.appendPreHeader p inl
+        (Tree.removeNode r (.mk (some p) (.sect xs) (pre ++ [.mk (some r) (.ref k text ty) []] ++ rest)))
+      = .mk (some p) (.sect xs) (pre ++ [inl] ++ rest) := by
+  have h := huniq
+  simp only [Content.uniqueIds, Tree.ids, Tree.idsL_append, Tree.idsL, List.append_nil,
+    List.append_assoc, List.singleton_append] at h
+  obtain ⟨hp_not, hn⟩ := List.nodup_cons.mp h
+  have hdis := (List.nodup_append.mp hn).2.2
+  have hn2 := List.nodup_cons.mp (List.nodup_append.mp hn).2.1
+  have hr_pre : Tree.containsL r pre = false := by
+    rw [Tree.containsL_false_iff]; intro hm; exact hdis r hm r (List.mem_cons_self) rfl
+  have hr_rest : Tree.containsL r rest = false := by
+    rw [Tree.containsL_false_iff]; exact hn2.1
+  have hp_all : Tree.containsL p (pre ++ rest) = false := by
+    rw [Tree.containsL_false_iff, Tree.idsL_append]
+    intro hm
+    apply hp_not
+    rcases List.mem_append.mp hm with hm | hm
+    · exact List.mem_append_left _ hm
+    · exact List.mem_append_right _ (List.mem_cons_of_mem _ hm)
+  have happ : ∀ (a b : List Tree), Tree.removeNodeL r (a ++ b) = Tree.removeNodeL r a ++ Tree.removeNodeL r b := by
+    intro a b
+    induction a with
+    | nil => simp [Tree.removeNodeL]
+    | cons x xs ih => simp only [List.cons_append, Tree.removeNodeL, ih]; split <;> simp
+  have hrem : Tree.removeNodeL r (pre ++ [.mk (some r) (.ref k text ty) []] ++ rest) = pre ++ rest := by
+    simp [happ, Tree.removeNodeL_frame r pre hr_pre, Tree.removeNodeL_frame r rest hr_rest, Tree.removeNodeL]
+  have hpos : Tree.preSubHeaderPosition (pre ++ rest) = pre.length := by
+    unfold Tree.preSubHeaderPosition
+    rw [List.takeWhile_append_of_pos]
+    · cases rest with
+      | nil => simp
+      | cons c cs => simp [List.takeWhile, hrest c rfl]
+    · intro c hc; simp [hpre c hc]
+  simp only [Tree.removeNode, hrem, Tree.appendPreHeader, beq_self_eq_true, if_true, Tree.insertAtMapped,
+    Tree.appendPreHeaderL_frame p inl _ hp_all, hpos, Tree.insertAt]
+  simp
+
+/-- without a uniqueness hypothesis the original statement is false: a node *inside* `pre` with the
+id of the extracted section gives the reference its title (`find` is a pre-order search) -/
+theorem extract_then_inline_shape_counterexample :
+    let pre : List Tree := [.mk (some 1) .blist [.mk (some 2) (.leaf [.str "X"]) []]]
+    let s : Tree := .mk (some 2) (.sect [.str "S"]) []
+    (match extractRec 2 0 "new" (.mk (some 0) (.sect [.str "A"]) (pre ++ [s] ++ [])) with
+     | .mk _ _ [_, .mk _ (.ref _ title _) _] => title == "X"
+     | _ => false) = true := by
+  decide
 
 /-- non-vacuity (kernel-evaluated): extract the first sub-section of `A` -/
 example :
